@@ -18,6 +18,7 @@ CdP(ex) == [Cd(ex) EXCEPT !.paren = TRUE]          \* a parenthetical Condition
 \* chains: up to three nested single-child levels with every kind / paren / mutex mix
 \* presentation variants of a level: plain, case-folded, with a symbol (none changes what Reveal may do)
 Lvl == {<<k, p, m, v>> : k \in {"AND", "NOT"}, p \in BOOLEAN, m \in BOOLEAN, v \in {"plain", "fold", "sym"}}
+   \cup {<<"BASIC", p, FALSE, "plain">> : p \in BOOLEAN}          \* a BASIC wrapper renders nothing, but it is a Stack like any other for Reveal
 LvStk(a, e) == [St(a[1], a[2], a[3], "native", e) EXCEPT !.fold = (a[4] = "fold"), !.sym = IF a[4] = "sym" THEN <<"!">> ELSE <<>>]
 Bottoms == {St("OR", FALSE, FALSE, "native", <<LX, LY>>), St("OR", TRUE, FALSE, "native", <<LX>>), Cd(LX), CdP(LX),
             Cd(St("LIST", FALSE, TRUE, "native", <<LX, LY>>)), LX}
@@ -27,7 +28,7 @@ FamChain == {St("AND", FALSE, m, "native", <<c, LY>>) : c \in Chain2, m \in BOOL
         \cup {St("OR", FALSE, m, "native", <<LY, c>>) : c \in Chain2, m \in BOOLEAN}
 
 \* wide: two children, each a small wrapper or a Condition holding one
-W1 == {St(k, p, FALSE, "native", e) : k \in {"AND", "NOT", "LIST"}, p \in BOOLEAN,
+W1 == {St(k, p, FALSE, "native", e) : k \in {"AND", "NOT", "LIST", "BASIC"}, p \in BOOLEAN,
                                        e \in {<<LX>>, <<LX, LY>>, <<>>, <<Cd(LX)>>, <<CdP(LX)>>, <<St("OR", FALSE, FALSE, "native", <<LX>>)>>,
                                               <<St("OR", TRUE, FALSE, "native", <<LX, LY>>)>>}}
 W2 == W1 \cup {Cd(w) : w \in {St("AND", FALSE, FALSE, "native", <<St("OR", FALSE, FALSE, "native", <<LX, LY>>)>>),
